@@ -145,6 +145,7 @@ impl Monitor for C07 {
 	}
 	fn lanes(&self, _tier: Tier) -> Vec<Lane> {
 		vec![
+			Lane { kind: LaneKind::Coverage(&["src/io/slippi/de.rs", "src/io/ubjson/de.rs", "src/io/mod.rs", "src/io/peppi/de.rs"]), name: "reach", shards: vec![0], nshards: 1 },
 			Lane { kind: LaneKind::AsanQuick, name: "asan-quick", shards: vec![0], nshards: 1 },
 			Lane { kind: LaneKind::Valgrind, name: "truncate", shards: (0..16).collect(), nshards: 16 },
 			Lane { kind: LaneKind::Miri, name: "truncate", shards: (0..9).collect(), nshards: 9 },
